@@ -1,6 +1,7 @@
 import Driver.Project
 import Typegen.ProjectSpec
 import Typegen.Classes
+import Typegen.TsSyntax
 import Driver.Types
 /-! run-time oracles of the project-level properties, evaluated on the *real* generated files -/
 open Lean
@@ -197,7 +198,20 @@ def projectOracles (p : Project) (cfg : Gn.Config) (a : Analysis) (implFiles : J
             | (f, _, _) :: _ :: _, some (id, k, _) => id = cl!"Channel" && k = .angle && f ≠ cl!"tauri"
             | _, _ => false)
         | _ => false) then ["K04d_foreignChannelPath"] else [])
-  { results := c03 ++ c12 ++ c07 ++ c09 ++ c02 ++ c04, classes := classes }
+  -- C01: every written file parses as a TypeScript module (recogniser `Sx.parsesAsModule`)
+  let fileText (n : String) : Option Str := match implFiles.getObjVal? n with | .ok (.str t) => some t.toList | _ => none
+  let c01 : List (String × Bool) :=
+    ["types.ts", "commands.ts", "events.ts", "index.ts"].filterMap fun n =>
+      (fileText n).map fun t => ("c01_parses_" ++ (n.dropEnd 3).toString, Sx.parsesAsModule t)
+  -- keys: every emitted property key / parameter key must be an identifier (they are never quoted)
+  let keys : List Str := (a.structs.flatMap fun st => if st.isEnum then [] else st.fields.map (Gn.fieldKey cfg st)) ++
+    (a.commands.flatMap fun c => c.params.map (fun prm => Gn.paramKey cfg c prm.name prm.serdeRename) ++ c.channels.map (fun ch => Gn.paramKey cfg c ch.param none))
+  let enumLits : List Str := a.structs.flatMap fun st => if st.isEnum then st.fields.map (Gn.fieldKey cfg st) else []
+  let classes := classes ++
+    (if keys.any (fun k => !T.isTsIdentName k && !(T.jsReserved.contains k && k.all T.isIdChar)) then ["K01c_nonIdentifierKey"] else []) ++
+    (if enumLits.any (fun k => k.contains '"' || k.contains '\\') then ["K01e_quoteInLiteral"] else []) ++
+    (if a.structs.any (fun st => st.isEnum && st.fields.isEmpty) then ["emptyEnum"] else [])
+  { results := c03 ++ c12 ++ c07 ++ c09 ++ c02 ++ c04 ++ c01, classes := classes }
 where
   imp_commands_empty (a : Analysis) : Bool := a.commands.isEmpty
 
